@@ -634,7 +634,7 @@ fn spawn(tier: Tier, limit_class: usize, shard: usize, nshards: usize, skip: &[u
     Child { proc, progress, out, limit_class, shard, skip: skip.to_vec(), last: 0, last_change: Instant::now() }
 }
 
-/// Runs one case alone. Some(stats) when it finishes cleanly within 10 s of CPU time (and 40 s of wall
+/// Runs one case alone. Some(stats) when it finishes cleanly within 10 s of CPU time (and 300 s of wall
 /// time): then the stall seen by the monitor was the machine's, not the library's.
 fn confirm_not_hung(tier: Tier, limit_class: usize, shard: usize, nshards: usize, case_id: u64, dir: &str) -> Option<Stats> {
     fn children_cpu() -> f64 {
@@ -645,10 +645,26 @@ fn confirm_not_hung(tier: Tier, limit_class: usize, shard: usize, nshards: usize
     let before = children_cpu();
     let mut c = spawn(tier, limit_class, shard, nshards, &[], Some(case_id), dir);
     let t0 = Instant::now();
+    // CPU seconds the child has used so far (utime + stime of /proc/<pid>/stat, in ticks of 1/100 s)
+    let child_cpu = |pid: u32| -> f64 {
+        std::fs::read_to_string(format!("/proc/{pid}/stat"))
+            .ok()
+            .and_then(|s| {
+                let rest = s.rsplit_once(')')?.1.to_string();
+                let f: Vec<&str> = rest.split_whitespace().collect();
+                Some((f.get(11)?.parse::<u64>().ok()? + f.get(12)?.parse::<u64>().ok()?) as f64 / 100.0)
+            })
+            .unwrap_or(0.0)
+    };
+    let pid = c.proc.id();
     let status = loop {
         match c.proc.try_wait() {
             Ok(Some(s)) => break Some(s),
-            Ok(None) if t0.elapsed() > Duration::from_secs(40) => {
+            // the verdict is taken on CPU time, which a loaded machine does not inflate: more than 10 s of
+            // CPU on one small input is a hang (or unbounded work); the wall limit only catches a child that
+            // blocks without using CPU, and is generous enough for a machine with a load of several times
+            // its cores
+            Ok(None) if child_cpu(pid) > 10.0 || t0.elapsed() > Duration::from_secs(300) => {
                 let _ = c.proc.kill();
                 let _ = c.proc.wait();
                 break None;
